@@ -23,12 +23,15 @@ Triples(seq) == {Triple(seq[i]) : i \in DOMAIN seq}
 EngOf(r, e) == r.engines[CHOOSE i \in DOMAIN r.engines : r.engines[i][1] = e]
 CfgOf(r) == [agents |-> ToSet(r.agents), imported |-> ToSet(r.imported), targets |-> ToSet(r.targets),
              epochs |-> ToSet(r.epochs), rows |-> Pairs(r.rows), obs |-> Triples(r.obs), nsteps |-> r.nsteps,
-             dup |-> Triples(r.dup), schema |-> r.schema,
+             dup |-> Triples(r.dup), schema |-> r.schema, near |-> Triples(r.near),
              born |-> [a \in ToSet(r.agents) |-> LET i == CHOOSE j \in DOMAIN r.born : r.born[j][1] = a IN r.born[i][2]],
              engines |-> {r.engines[i][1] : i \in DOMAIN r.engines},
              sensorOf |-> [s \in ToSet(r.agents) \ ToSet(r.targets) |->
                              LET i == CHOOSE j \in DOMAIN r.engines : s \in ToSet(r.engines[j][2]) IN r.engines[i][1]],
-             tracks |-> [e \in {r.engines[i][1] : i \in DOMAIN r.engines} |-> ToSet(EngOf(r, e)[3])]]
+             tracks |-> [e \in {r.engines[i][1] : i \in DOMAIN r.engines} |-> ToSet(EngOf(r, e)[3])],
+             \* sites logged as [[sensor, site number], ...]: equal numbers = identical coordinates
+             site |-> [s \in ToSet(r.agents) \ ToSet(r.targets) |->
+                         LET i == CHOOSE j \in DOMAIN r.sites : r.sites[j][1] = s IN r.sites[i][2]]]
 IsEvent(e) == l <= Len(Tr) /\ Rec.ev = e /\ l' = l + 1 /\ UNCHANGED tid
 
 TraceInit == tid \in DOMAIN Traces /\ InitWith(CfgOf(Traces[tid][1])) /\ l = 2
@@ -65,8 +68,12 @@ TraceSpec == TraceInit /\ [][TraceNext]_tvars
 \* short because TLC wraps printed values at 80 columns:
 \*   NoStaleState:epoch-absent-from-db      the run continued although the importer database has no such epoch at all
 \*   NoStaleState:no-record-for-agent       the run continued although a registered agent has no record at this epoch
+\*   NoStaleState:gap-masked-by-same-second-rec  ... and another epoch inside the same wall-clock second has one
 \*   ImportFaithful:not-this-epochs-record  an imported agent's state is not the database record of this epoch
+\*   ImportFaithful:record-of-another-epoch it is the record of an epoch that is not a scenario epoch
 \*   ObsReachFilter:lost-cross-engine-obs   an observation whose sensor and target belong to different engines never arrived
+\*   ObsReachFilter:lost-obs-of-colocated-sensor  every lost observation's sensor has the coordinates of another
+\*                                          sensor that observed the same target at that epoch
 \*   ObsReachFilter:obs-lost / obs-more-than-once / obs-not-in-db
 \*   NoStaleState:importer-not-queried      agents are imported but the step went on without importEphemerides
 \*   RunContinues:duplicate-obs-row         the run died at an epoch for which an observation row is stored twice
@@ -74,17 +81,25 @@ TraceSpec == TraceInit /\ [][TraceNext]_tvars
 WhyImportOk ==
   IF pc # "registered" THEN "out-of-order"
   ELSE IF ~Complete
-         THEN IF EpochAbsent(k) THEN "NoStaleState:epoch-absent-from-db"
-                                ELSE "NoStaleState:no-record-for-agent"
-         ELSE IF ~HeldMatch(AfterImport, Rec.held) THEN "ImportFaithful:not-this-epochs-record" ELSE "ok"
+         THEN IF \E a \in registered : ~HasRow(a, k) /\ SameSecond(a, k, {"before", "after"}) # {}
+                THEN "NoStaleState:gap-masked-by-same-second-rec"
+              ELSE IF EpochAbsent(k) THEN "NoStaleState:epoch-absent-from-db"
+                                     ELSE "NoStaleState:no-record-for-agent"
+         ELSE IF ~HeldMatch(AfterImport, Rec.held)
+                THEN IF \E i \in DOMAIN Rec.held : Rec.held[i][2] = "foreign" THEN "ImportFaithful:record-of-another-epoch"
+                                                                             ELSE "ImportFaithful:not-this-epochs-record"
+                ELSE "ok"
 WhyLoadObs ==
   IF pc # "imported" THEN "out-of-order"
   ELSE IF done # cfg.engines THEN "ok"      \* silent loads pending
   ELSE LET seq == Rec.reached
            lost == {o \in cfg.obs : \E i \in DOMAIN seq : o[2] = seq[i][1] /\ Count(seq[i][2], o) < reached[o]}
            dup == {o \in cfg.obs : \E i \in DOMAIN seq : o[2] = seq[i][1] /\ Count(seq[i][2], o) > reached[o]}
+           \* a lost observation whose sensor shares its coordinates with another sensor that observed the same target
+           colo == {o \in lost : \E p \in cfg.obs : p # o /\ p[1] = o[1] /\ p[2] = o[2] /\ cfg.site[p[3]] = cfg.site[o[3]]}
        IN IF lost # {} THEN (IF \E o \in lost : CrossEngine(o) THEN "ObsReachFilter:lost-cross-engine-obs"
-                                                              ELSE "ObsReachFilter:obs-lost")
+                             ELSE IF colo = lost THEN "ObsReachFilter:lost-obs-of-colocated-sensor"
+                             ELSE "ObsReachFilter:obs-lost")
           ELSE IF dup # {} THEN "ObsReachFilter:obs-more-than-once"
           ELSE IF ~ReachedMatch(reached, seq) THEN "ObsReachFilter:obs-not-in-db" ELSE "ok"
 Why ==
